@@ -5,9 +5,9 @@ VARIABLE hist
 Used == {s \in Slot : bx[s].kind # "free"}
 FreeS == {s \in Slot : bx[s].kind = "free"}
 Actions ==
-  {[op |-> "New", s |-> s, kind |-> "cbox", pk |-> pk, n |-> 1, via |-> v] : s \in FreeS, pk \in {"heavy", "zst"}, v \in {"from_t", "from_box", "from_tuple"}}
-  \cup {[op |-> "New", s |-> s, kind |-> "sbox", pk |-> pk, n |-> n, via |-> "from_box"] : s \in FreeS, pk \in {"heavy", "zst"}, n \in {0, 1, 3}}
-  \cup {[op |-> "New", s |-> s, kind |-> "obj", pk |-> pk, n |-> 1, via |-> "from_t"] : s \in FreeS, pk \in {"heavy", "zst"}}
+  {[op |-> "New", s |-> s, kind |-> "cbox", pk |-> pk, n |-> 1, via |-> v] : s \in FreeS, pk \in {"heavy", "zst", "pod"}, v \in {"from_t", "from_box", "from_tuple"}}
+  \cup {[op |-> "New", s |-> s, kind |-> "sbox", pk |-> pk, n |-> n, via |-> "from_box"] : s \in FreeS, pk \in {"heavy", "zst", "pod"}, n \in {0, 1, 3}}
+  \cup {[op |-> "New", s |-> s, kind |-> "obj", pk |-> pk, n |-> 1, via |-> "from_t"] : s \in FreeS, pk \in {"heavy", "zst", "pod"}}
   \cup {[op |-> "IntoOpaque", s |-> s] : s \in Used}
   \cup {[op |-> "IntoInner", s |-> s] : s \in Used}
   \cup UNION {{[op |-> "Write", s |-> s, k |-> k] : k \in 1..Len(bx[s].ids)} : s \in Used}
